@@ -27,27 +27,37 @@ def make(spec):
     top = Module()
     masters = [axi_full.AXIInterface(data_width=32, address_width=AW, id_width=idw) for _ in range(n)]
     slaves = [axi_full.AXIInterface(data_width=32, address_width=AW, id_width=idw) for _ in range(m)]
+    idv = spec.get("idvals", [0, 1])             # the two transaction ids in use (index 0 / 1 in the contract)
+    ids = Array([Constant(v, idw) for v in idv])
+
+    def idx(sig):                                # id seen on a port -> its index, 3 = none of the two
+        return Mux(sig == idv[0], 0, Mux(sig == idv[1], 1, 3))
     ins, outs = [], []
     for i, mi in enumerate(masters):
-        av, tgt, ln, aid, wv, wl, rr = Signal(), Signal(max=m + 2), Signal(), Signal(idw), Signal(), Signal(), Signal()
-        ins += [av, tgt, ln, aid, wv, wl, rr]
-        arr = Array([Constant(0, AW)] + [Constant(org + 4 * (i + 1), AW) for org, _ in regs])
+        # one packed input per port: av + 2*tgt + 8*len + 16*id + 32*wv + 64*wl + 128*rr
+        code = Signal(8)
+        ins.append(code)
+        av, tgt, ln, aid, wv, wl, rr = code[0], code[1:3], code[3], code[4], code[5], code[6], code[7]
+        arr = Array([Constant(0, AW)] + [Constant(org + 4 * (i + 1), AW) for org, _ in regs] + [Constant(0, AW)] * 2)
         ax = mi.aw if wr else mi.ar
         # an idle address channel reads 0 in every field but burst type / size (don't care values, canonical)
         top.comb += [ax.valid.eq(av), ax.addr.eq(Mux(av, arr[tgt], spec.get("idle_addr", 0))),
-                     ax.len.eq(ln), ax.id.eq(aid), ax.burst.eq(BURST_INCR), ax.size.eq(SIZE32)]
+                     ax.len.eq(ln), ax.id.eq(Mux(av, ids[aid], 0)), ax.burst.eq(BURST_INCR), ax.size.eq(SIZE32)]
         if wr:
             top.comb += [mi.w.valid.eq(wv), mi.w.data.eq(i + 1), mi.w.strb.eq(0xf), mi.w.last.eq(wl), mi.b.ready.eq(rr)]
         else:
             top.comb += [mi.r.ready.eq(rr)]
     for j, sj in enumerate(slaves):
-        ar_, wr_, rv, rid, rl = Signal(), Signal(), Signal(), Signal(idw), Signal()
-        ins += [ar_, wr_, rv, rid, rl]
+        # ar + 2*wr + 4*rv + 8*rid + 16*rl
+        code = Signal(5)
+        ins.append(code)
+        ar_, wr_, rv, rid, rl = code[0], code[1], code[2], code[3], code[4]
         if wr:
-            top.comb += [sj.aw.ready.eq(ar_), sj.w.ready.eq(wr_), sj.b.valid.eq(rv), sj.b.resp.eq(j + 1), sj.b.id.eq(rid)]
+            top.comb += [sj.aw.ready.eq(ar_), sj.w.ready.eq(wr_), sj.b.valid.eq(rv), sj.b.resp.eq(j + 1),
+                         sj.b.id.eq(Mux(rv, ids[rid], 0))]
         else:
             top.comb += [sj.ar.ready.eq(ar_), sj.r.valid.eq(rv), sj.r.resp.eq(j + 1), sj.r.data.eq(j + 1),
-                         sj.r.id.eq(rid), sj.r.last.eq(rl)]
+                         sj.r.id.eq(Mux(rv, ids[rid], 0)), sj.r.last.eq(rl)]
     decoders = []
     for (org, size), sj in zip(regs, slaves):
         r = SoCRegion(origin=org, size=size)
@@ -70,12 +80,12 @@ def make(spec):
     top.submodules.ic = ic
     for mi in masters:
         if wr:
-            outs += [mi.aw.ready, mi.w.ready, mi.b.valid, mi.b.resp, mi.b.id, Constant(0)]
+            outs += [mi.aw.ready, mi.w.ready, mi.b.valid, mi.b.resp, idx(mi.b.id), Constant(0)]
         else:
-            outs += [mi.ar.ready, Constant(0), mi.r.valid, Mux(mi.r.resp == mi.r.data[:2], mi.r.resp, 7), mi.r.id, mi.r.last]
+            outs += [mi.ar.ready, Constant(0), mi.r.valid, Mux(mi.r.resp == mi.r.data[:2], mi.r.resp, 7), idx(mi.r.id), mi.r.last]
     for sj in slaves:
         ax = sj.aw if wr else sj.ar
-        outs += [ax.valid, ax.addr, ax.len, ax.id, Cat(ax.burst, ax.size)]
+        outs += [ax.valid, ax.addr, ax.len, idx(ax.id), Cat(ax.burst, ax.size)]
         if wr:
             outs += [sj.w.valid, sj.w.data[:4], sj.w.last, sj.b.ready]
         else:
@@ -98,7 +108,7 @@ def tla_cfg(spec):
             "earlyw": int(spec.get("axi_earlyw", 0)), "xslave": int(spec.get("axi_xslave", 0))}
 
 
-NMI, NSI, NMO = 7, 5, 6
+NMO = 6
 
 
 class Hint:
@@ -107,24 +117,21 @@ class Hint:
         return ()
 
     def allowed(self, cfg, ctx, iv):
-        for kind, idx, val in ctx:
-            if kind == "a":
-                if tuple(iv[NMI * idx:NMI * idx + 4]) != val:
-                    return False
-            elif kind == "w":
-                if tuple(iv[NMI * idx + 4:NMI * idx + 6]) != val:
-                    return False
+        for kind, i, val in ctx:
+            if kind == "a" and iv[i] & 31 != val:
+                return False
+            if kind == "w" and iv[i] & 96 != val:
+                return False
         return True
 
     def next(self, cfg, ctx, iv, o):
         held = []
         for i in range(cfg["n"]):
-            f = iv[NMI * i:NMI * i + NMI]
             aready, wready = o[NMO * i], o[NMO * i + 1]
-            if f[0] and not aready:
-                held.append(("a", i, tuple(f[0:4])))
-            if f[4] and not wready:
-                held.append(("w", i, tuple(f[4:6])))
+            if iv[i] & 1 and not aready:
+                held.append(("a", i, iv[i] & 31))
+            if iv[i] & 32 and not wready:
+                held.append(("w", i, iv[i] & 96))
         return tuple(held)
 
 
